@@ -637,9 +637,18 @@ func (x *run) tree(keys [][]byte, style string, exhaustive bool, modelShare int)
 		allm = append(allm, mutationsOf(t[i], i, t, r)...)
 		allm = append(allm, mut{i, "empty", rnode{Empty: true}})
 	}
+	// one Tree object (and a value copy of it) lives through the whole history: validated first, then every
+	// mutation is applied with Set, validated again, and undone; the oracle recomputes validity from scratch
+	live, lerr := fixedtree.NewTree(treeHint, toNodes(t))
+	if lerr != nil || live.IsValid(nil) != nil {
+		res.Fail("generated-invalid", "NewTree over the generated nodes is not valid", rep("isvalid"))
+		return
+	}
+	liveCopy := live
 	for k, m := range allm {
 		t2 := replaced(t, m.Pos, m.Node)
-		v := realTreeValid(t2)
+		vfresh := realTreeValid(t2)
+		v := x.history(&live, liveCopy, t, m, vfresh, rep)
 		res.Count(fmt.Sprintf("tmut/%d/%d/%s/%x", n, m.Pos, m.Kind, keys[0]), true)
 		res.Dist("tree-mutation:" + m.Kind)
 		if v {
@@ -805,6 +814,58 @@ func (x *run) tree(keys [][]byte, style string, exhaustive bool, modelShare int)
 			noteCollisions(ptab, res)
 		}
 	}
+}
+
+// history: on the SAME Tree object that already validated: Set(pos, mutated); IsValid; Root; Traverse; Proof;
+// the value copy sees the same nodes; then the node is put back and the tree validates again.
+// Returns IsValid of the live object after the Set.
+func (x *run) history(live *fixedtree.Tree, cp fixedtree.Tree, orig []rnode, m mut, vfresh bool, rep func(string) treeReplay) bool {
+	res := x.res
+	fail := func(desc string) {
+		mm := m
+		rp := rep("tree-history")
+		rp.Mut = &mm
+		res.Fail("tree-stale-after-set", desc, rp)
+	}
+	if err := live.Set(uint64(m.Pos), m.Node.node()); err != nil {
+		fail("Set failed: " + err.Error())
+		return vfresh
+	}
+	cur := fromNodes(live.Nodes())
+	want := refValid(cur, newTab()) // from scratch on the current nodes
+	v := live.IsValid(nil) == nil
+	vcp := cp.IsValid(nil) == nil
+	res.Evaluations += 2
+	res.Dist("history:set-then-isvalid")
+	if v != want || v != vfresh {
+		fail(fmt.Sprintf("[IsValid; Set(%d, %s); IsValid] on one Tree object: IsValid=%v, recomputed from the current nodes=%v, fresh tree over the same nodes=%v", m.Pos, m.Kind, v, want, vfresh))
+	}
+	if cpn := fromNodes(cp.Nodes()); len(cpn) == len(cur) && cpn[m.Pos].String() == cur[m.Pos].String() && vcp != want {
+		fail(fmt.Sprintf("value copy of the Tree (sharing the nodes) says IsValid=%v after Set(%d, %s); recomputed=%v", vcp, m.Pos, m.Kind, want))
+	}
+	if !cur[0].Empty && live.Root() != nil && !bytes.Equal(live.Root().Bytes(), cur[0].Hash) {
+		fail("Root() is not the hash of the current node 0")
+	}
+	var seen []rnode
+	_ = live.Traverse(func(_ uint64, n fixedtree.Node) (bool, error) {
+		seen = append(seen, fromNode(n))
+		return true, nil
+	})
+	if len(seen) != len(cur) || seen[m.Pos].String() != cur[m.Pos].String() {
+		fail("Traverse does not visit the node put by Set")
+	}
+	if !m.Node.Empty && len(m.Node.Key) > 0 {
+		p1, err := live.Proof(string(m.Node.Key))
+		p2, ok := realExtract(cur, m.Node.Key)
+		if (err == nil) != ok || (ok && fmt.Sprint(fromNodes(p1.Nodes())) != fmt.Sprint(p2)) {
+			fail("Tree.Proof after Set differs from ExtractProofMaterial over the current nodes")
+		}
+	}
+	// undo; the original tree validates again
+	if err := live.Set(uint64(m.Pos), orig[m.Pos].node()); err != nil || live.IsValid(nil) != nil {
+		fail("the tree does not validate after the original node was put back")
+	}
+	return v
 }
 
 func hexList(keys [][]byte) string {
